@@ -245,9 +245,15 @@ def run(ctx):
         ctx.res.count('%s_%s' % (be, what))
     for it in range(int(20 * B)):
         do(ctx, 'resample', [rng.randint(1, 3), rng.randrange(10 ** 6)], nontrivial=('r', it))
-    do(ctx, 'chi2', [1, 3000 if ctx.tier == 'quick' else 60000, 11], nontrivial='chi1')
-    do(ctx, 'chi2', [2, 14400 if ctx.tier == 'quick' else 144000, 12], nontrivial='chi2')
-    do(ctx, 'chi2_product', ['torch', 14400 if ctx.tier == 'quick' else 144000, 13], nontrivial='chi_prod_torch')
-    do(ctx, 'chi2_product', ['np', 3600 if ctx.tier == 'quick' else 72000, 14], nontrivial='chi_prod_np')
-    do(ctx, 'chi2_rows', ['np', 20000 if ctx.tier == 'quick' else 400000, 16], nontrivial='chi_rows_np')
-    do(ctx, 'chi2_rows', ['torch', 8000 if ctx.tier == 'quick' else 80000, 17], nontrivial='chi_rows_torch')
+    if not getattr(ctx, 'is_worker', False):
+        do(ctx, 'chi2', [1, 3000 if ctx.tier == 'quick' else 60000, 11], nontrivial='chi1')
+    if not getattr(ctx, 'is_worker', False):
+        do(ctx, 'chi2', [2, 14400 if ctx.tier == 'quick' else 144000, 12], nontrivial='chi2')
+    if not getattr(ctx, 'is_worker', False):
+        do(ctx, 'chi2_product', ['torch', 14400 if ctx.tier == 'quick' else 144000, 13], nontrivial='chi_prod_torch')
+    if not getattr(ctx, 'is_worker', False):
+        do(ctx, 'chi2_product', ['np', 3600 if ctx.tier == 'quick' else 72000, 14], nontrivial='chi_prod_np')
+    if not getattr(ctx, 'is_worker', False):
+        do(ctx, 'chi2_rows', ['np', 20000 if ctx.tier == 'quick' else 400000, 16], nontrivial='chi_rows_np')
+    if not getattr(ctx, 'is_worker', False):
+        do(ctx, 'chi2_rows', ['torch', 8000 if ctx.tier == 'quick' else 80000, 17], nontrivial='chi_rows_torch')
